@@ -293,7 +293,8 @@ class Formulas(Family):
             bad = []
             for k in ("eigsumthresh", "normresidual", "fit", "fitchange"):
                 a, b = py[k], unbits(m[k])
-                if not (a == b or abs(a - b) <= 4e-16 * max(abs(a), abs(b))):
+                # not bit-exact: numpy's `**` goes through pow(), and 1 - x cancels; a misread formula is O(1) off
+                if not (a == b or abs(a - b) <= 1e-13 * max(1.0, abs(a), abs(b))):
                     bad.append(k)
             for k in ("stop", "rank_cut", "slice_bound_5", "iters_7", "auto_marker"):
                 if py[k] != m[k]:
@@ -620,8 +621,13 @@ class HosvdTrace(Family):
         if c["kind"] == "prescribed":
             tags.append(f"{c['side']}-{c['delta']:g}")
         const = bool(np.all(A == A.flat[0])) if A.size else True
+        mixed = c["ranks"] is not None and any(r == 0 for r in c["ranks"]) and any(r != 0 for r in c["ranks"])
         if impl.get("reject"):
             tags.append("reject")
+            if mixed and c["sequential"] and m.get("reject"):
+                # a hard user truncation followed by an automatic mode can leave no eigenvalue sum above the
+                # threshold (np.where(...)[0][-1] raises); outside the property's quantifier, the model agrees
+                return V("ok", "", impl, None, None, tags + ["mixed-empty-cut"], False)
             if not self.malformed:
                 return V("violation", f"hosvd raised {impl.get('exc')} on a valid request: {impl.get('msg')}", impl, None, None, tags)
             if not m.get("reject"):
@@ -798,6 +804,16 @@ class TuckerTrace(Family):
             rank, conv = [1] * N, rng.choice(["list", "tuple"])
         else:
             rank, conv = [rng.randint(1, min(shape))], rng.choice(["int", "list"])
+        if len(rank) == N and rng.random() < 0.85:
+            # a rank above the product of the other ranks leaves the trailing columns of that factor
+            # arbitrary (null space of the Gram matrix): keep such degenerate requests rare
+            for _ in range(3):
+                for n in range(N):
+                    others = 1
+                    for m in range(N):
+                        if m != n:
+                            others *= rank[m]
+                    rank[n] = max(1, min(rank[n], others))
         order = rng.choice([None] + [list(p) for p in itertools.permutations(range(N))]) if N <= 3 \
             else rng.choice([None, rng.sample(range(N), N)])
         full_rank = rank * N if len(rank) == 1 else rank
@@ -1128,18 +1144,29 @@ class TuckerMonotone(TuckerTrace):
             A = runs[0]["A"]
             normx = float(np.sqrt((A ** 2).sum()))
             energies = [float((r["impl"]["ok"]["core"] ** 2).sum()) for r in runs]
+
+            def same_start(k):
+                """run k (limit k+1) reproduces the whole run k-1: only then is the comparison of their fits a
+                statement about ONE trajectory (a requested rank above the rank of the projected unfolding
+                leaves columns of a factor arbitrary, and ARPACK's start vector is not reproducible)"""
+                a, b = runs[k - 1]["nv"], runs[k]["nv"]
+                return len(b) >= len(a) and all(x[3].shape == y[3].shape and near(x[3], y[3], 1e-7, 1.0) for x, y in zip(a, b))
             verdict = None
+            diverged = False
             for k in range(len(runs)):
                 res = runs[k]["impl"]["ok"]
                 if res["iters"] + 1 != k + 1:
                     verdict = V("violation", f"limit {k + 1} with the stop test disabled: {res['iters'] + 1} iterations reported", fits, None, None, tags)
                     break
                 sub = dict(c, maxiters=k + 1)
-                sc = self.spec_check(sub, runs[k], [])
+                sc = self.spec_check(sub, runs[k], [])   # includes: fit never decreases along this run
                 if isinstance(sc, Verdict):
                     verdict = sc
                     break
                 if k > 0:
+                    if not same_start(k):
+                        diverged = True
+                        continue
                     gap = 1 - fits[k - 1]
                     if fits[k] < fits[k - 1] - fit_tolerance(abs(gap)) or energies[k] < energies[k - 1] - 1e-10 * normx ** 2:
                         verdict = V("violation", f"fit decreased from limit {k} to limit {k + 1}: {fits[k - 1]} -> {fits[k]}", fits, None, None, tags)
@@ -1155,7 +1182,15 @@ class TuckerMonotone(TuckerTrace):
                 out.append(V("corr", f"model executed {len(tr)} iterations, limit {len(runs)}", fits, None, None, tags))
                 continue
             mf = [unbits(t["fit"]) for t in tr]
-            if any(abs((1 - a) ** 2 - (1 - b) ** 2) > 1e-9 for a, b in zip(mf, fits)):
+            if abs((1 - mf[-1]) ** 2 - (1 - fits[-1]) ** 2) > 1e-9:
+                out.append(V("corr", "last fit of the model's iteration records differs from the run it replays", fits, mf, None, tags))
+                continue
+            if any(mf[i + 1] < mf[i] - fit_tolerance(abs(1 - mf[i])) for i in range(len(mf) - 1)):
+                out.append(V("violation", "fit decreased along the iterations of one run", fits, mf, None, tags))
+                continue
+            if diverged:
+                tags.append("trajectory-diverged")
+            elif any(abs((1 - a) ** 2 - (1 - b) ** 2) > 1e-9 for a, b in zip(mf, fits)):
                 out.append(V("corr", "fits of the model's iteration records differ from the runs with shorter limits", fits, mf, None, tags))
                 continue
             tags.append("strict-increase" if fits[-1] > fits[0] + 1e-9 else "flat")
